@@ -73,6 +73,7 @@ def protocol(c, meta, own):
     for m in meta:
         b = m.get("blog")
         if not b or any(e["ev"] == "End" and e["kind"] == "hang" for e in b): continue
+        if m["cfg"].get("nj") == 1: continue        # the in-caller path configures the backend and never uses it: no life cycle to judge
         uniq.setdefault(json.dumps(b), m)
     keys = list(uniq); T = [json.loads(k) for k in keys]
     if not T: return
